@@ -16,7 +16,8 @@ Fixpoint loop_pre (c : cfg) (script : list outcome) (s : state) (prev : option (
       | SDone r evs2 => None
       | SSent s2 t evs2 =>
           let ev := EAtt t (q_rr s2) (q_stale s2) (q_retry s2) in
-          let s3 := after_send s2 t in
+          let s3 := raise_att c i (after_send s2 t) in
+          if dead s2 then None else
           match script with
           | [] => Some (evs1 ++ evs2 ++ [ev], s3, t)
           | OSuccess :: _ => None
@@ -36,7 +37,7 @@ Lemma loop_split c pr : forall s prev i evs x t o rest,
 Proof.
   induction pr as [|p pr IH]; intros s prev i evs x t o rest H Ho; rewrite loop_unfold; cbn [loop_pre] in H;
     destruct (pre false c s prev i) as [s1 evs1|]; try discriminate; cbv zeta in *;
-    destruct (sel_phase c _) as [s2 t2 evs2|]; try discriminate.
+    destruct (sel_phase c _) as [s2 t2 evs2|]; try discriminate; destruct (dead s2); try discriminate.
   - injection H as <- <- <-. cbn [app length]. rewrite Nat.add_0_r.
     destruct o; try congruence; destruct (loop_gen false c rest _ _ _) as [e r]; rewrite <- !app_assoc; reflexivity.
   - cbn [app length].
@@ -48,7 +49,7 @@ Qed.
 
 (* leader read of a 3-replica region, everything healthy, a generous budget *)
 Definition c0 : cfg := mkCfg RTLeader false true false false false false 100000%N true
-  [fresh_rep Reachable false false false; fresh_rep Reachable false false false; fresh_rep Reachable false false false] false TpTiKV.
+  [fresh_rep Reachable false false false; fresh_rep Reachable false false false; fresh_rep Reachable false false false] false TpTiKV TNever TNever true false.
 
 Definition N0 := ONotLeaderHint 0.
 Definition N1 := ONotLeaderHint 1.
